@@ -8,6 +8,7 @@ PROP = dict(
               'driven through the real serializer stack into a simulated sink with seeded buffer sizes, explicit flushes and sink faults; '
               'round-trip oracle through an independent parser (Xerces SAX2), knob-independence, serializer-agreement and sink-fault oracles; ASan/UBSan',
     level_text='Seeded exploration of (result tree, encoding, XML version, cdata-section-elements, serializer, buffer size, transcoder block size, flush placement, sink fault). '
+               'Character picks cover whole blocks (Latin-1, Latin Extended, Greek, Cyrillic, Hebrew, Thai, punctuation, kana, CJK, fullwidth forms) under thirteen encodings plus an unsupported name; one script in three has a configuration in which stream and writer serve a document in another encoding first. '
                'One script is executed under 4-8 configurations: XalanXMLSerializerFactory product (UTF-8, UTF-16 and other-encoding writer families) x 3 knob settings (buffer size, transcoder block size, flush points, content of the two memory units behind each character buffer), '
                'FormatterToXML x 1-2, every fourth run the whole XalanTransformer pipeline (identity-style stylesheet with xsl:output) in callback and stream form, '
                'and in 35% of the runs one configuration again under a sink fault. Oracles: the bytes parse (Xerces SAX2, namespaces on) to exactly the scripted tree; '
